@@ -2,17 +2,18 @@
 # run_seeds.sh <seed-id>:<PROP>[:tier] ...   -- for each pair: fresh scratch worktree of /repo's HEAD with the seeded patch applied, the
 # check is run against it (VERIF_REPO redirect: nothing under /verif/evidence or /verif/replays is touched), the worktree is removed.
 # Appends one line per run to seeded/results.log
-cd /verif
+cd "$(dirname "$0")/.." || exit 1
+V=$PWD
 for spec in "$@"; do
   IFS=: read seed prop tier <<< "$spec"; tier=${tier:-quick}
   wt=/tmp/wt-seed-$seed
   git -C /repo worktree remove --force $wt 2>/dev/null
   git -C /repo worktree add -q $wt HEAD || { echo "$seed: cannot create worktree"; continue; }
   cp /repo/Cargo.lock $wt/
-  if ! git -C $wt apply /verif/seeded/$seed/patch.diff; then echo "$(date +%H:%M) seed=$seed check=$prop -> PATCH DOES NOT APPLY" >> seeded/results.log; git -C /repo worktree remove --force $wt; continue; fi
+  if ! git -C $wt apply $V/seeded/$seed/patch.diff; then echo "$(date +%H:%M) seed=$seed check=$prop -> PATCH DOES NOT APPLY" >> seeded/results.log; git -C /repo worktree remove --force $wt; continue; fi
   s=$(date +%s)
   VERIF_REPO=$wt timeout 3600 ./check $prop --tier $tier > /tmp/seedrun-$seed-$prop.log 2>&1; rc=$?
   echo "$(date +%H:%M) seed=$seed check=$prop tier=$tier -> exit $rc ($(( $(date +%s)-s ))s): $(grep -E '^VIOLATION|^  role=|^INCONCLUSIVE|^KNOWN' /tmp/seedrun-$seed-$prop.log | head -4 | cut -c1-260 | tr '\n' ' ')" >> seeded/results.log
   git -C /repo worktree remove --force $wt
-  rm -rf /verif/.build/alt-wt-seed-$seed
+  rm -rf $V/.build/alt-wt-seed-$seed
 done
